@@ -52,6 +52,10 @@ CATALOGUE = [
     dict(modules=[dict(interval=16, slow=40, dopoll=[(1, 'ok')], reads={'a': [(1, 'ok')]}),
                   dict(interval=8, slow=24, dopoll=[(1, 'ok')], reads={'a': [(1, 'ok')]}, readable=True)],
          env=[(20, 'interval', 0, 2), (60, 'interval', 0, 32), (100, 'interval', 1, 1)], horizon=260),
+    # the fast interval changes while fast polling is already on; switching off twice
+    dict(modules=[dict(interval=16, slow=40, dopoll=[(1, 'ok')], reads={'a': [(1, 'ok')]})],
+         env=[(20, 'fast', 0, (True, 8)), (60, 'fast', 0, (True, 2)), (100, 'fast', 0, (True, 1)), (130, 'fast', 0, (False, 0)),
+              (150, 'interval', 0, 4), (170, 'fast', 0, (False, 0))], horizon=220),
 ]
 
 
@@ -84,6 +88,8 @@ def random_scenario(rnd):
             if fi == 0 and min(d for d, _ in mods[mi]['dopoll']) == 0:
                 fi = 1          # interval 0 with a zero-time poll is a zero-time busy loop by definition
             env.append((at, 'fast', mi, (flag, fi)))
+            if flag and rnd.random() < 0.5:      # the same mode again, with another interval
+                env.append((at + rnd.randint(3, 40), 'fast', mi, (True, 1 if fi == 2 else 2)))
         elif kind == 'interval' and mods[mi]['readable']:
             env.append((at, 'interval', mi, rnd.choice([1, 2, 4, 8, 32])))
         else:
